@@ -4,8 +4,9 @@ Shared by C04 (stream well-formedness, fault injection) and C05 (skip pruning). 
 the *expected* event skeleton computed from the abstract tree (never by consulting the parser).
 """
 
-NS, EXT, CLS, CLSVAR, TDCLS, INLNS, NESTNS = range(7)
-KIND_NAMES = ["namespace", 'extern "C"', "struct", "struct..declarator", "typedef struct", "inline namespace", "namespace a::b"]
+NS, EXT, CLS, CLSVAR, TDCLS, INLNS, NESTNS, NS_R, NESTNS_R, NS_ANON = range(10)
+KIND_NAMES = ["namespace", 'extern "C"', "struct", "struct..declarator", "typedef struct", "inline namespace", "namespace a::b",
+              "namespace R (re-opened)", "namespace R::Q (prefix may exist)", "namespace {"]
 
 
 class Node:
@@ -60,6 +61,14 @@ CLS_PAYLOADS = [
     ("static int {n};", ["on_class_field"]),
     ("template <typename T> void {n}(T) {{}}", ["on_class_method"]),
     ("struct {{ int {n}; }};", ["on_class_start", "on_class_field", "on_class_end", "on_class_field"]),
+]
+
+
+# namespace-scope constructs written inside a class: ill-formed input (mutations); the parser may reject them, but whatever it
+# delivers before must still be a well-formed stream
+CLS_MISPLACED = [
+    "namespace {n} = x::y;", "using namespace {n};", "template class {n}<int>;", "template <typename T> concept {n} = true;",
+    "{n}(int) -> {n}<int>;", "void X::{n}() {{}}", "extern template class {n}<int>;",
 ]
 
 
@@ -135,6 +144,10 @@ def render(node, indent=0):
                 out.append(f"{pad}namespace N{b.idx}::M{b.idx} {{")
                 out += body
                 out.append(f"{pad}}}")
+            elif k in (NS_R, NESTNS_R, NS_ANON):
+                out.append(pad + {NS_R: "namespace R {", NESTNS_R: "namespace R::Q {", NS_ANON: "namespace {"}[k])
+                out += body
+                out.append(f"{pad}}}")
             elif k == EXT:
                 out.append(f'{pad}extern "C" {{')
                 out += body
@@ -155,6 +168,7 @@ def render(node, indent=0):
 
 
 START_OF = {NS: "on_namespace_start", INLNS: "on_namespace_start", NESTNS: "on_namespace_start",
+            NS_R: "on_namespace_start", NESTNS_R: "on_namespace_start", NS_ANON: "on_namespace_start",
             EXT: "on_extern_block_start", CLS: "on_class_start", CLSVAR: "on_class_start", TDCLS: "on_class_start"}
 END_OF = {"on_namespace_start": "on_namespace_end", "on_extern_block_start": "on_extern_block_end",
           "on_class_start": "on_class_end"}
